@@ -6,6 +6,7 @@
 import Fbr.Ovl
 import Fbr.Lemmas.OvlMerge
 import Fbr.Lemmas.OvlSpecLink
+import Fbr.Lemmas.OvlHoare
 
 namespace Fbr.Ovl
 
@@ -16,6 +17,9 @@ def realOf (d : Disk) (p : Path) (i : Nat) : Real :=
 
 /-- every layer root is a directory -/
 def Disk.RootsOK (d : Disk) : Prop := ∀ i ∈ d.indices, (d.nodeAt i []).isDir = true
+
+/-- every layer is a tree -/
+def Disk.TreesOK (d : Disk) : Prop := ∀ i L, d.layer i = some L → TreeOK L
 
 /-- the real inodes the overlay node `p` keeps, computed with the model's own functions -/
 def expReals (d : Disk) : Path → List Real
